@@ -27,6 +27,30 @@ CLAIMS = {
          "Lean 4 proof (bv_decide for flags, induction on CX for the protocol) + L2 differential tie incl. protocol runs"),
  "C09": ("Lean 4 theorems: the model's exec is a total function whose memory indices are all < 2^20 before the memory primitive reduces them (calcAddr_lt, incAddr_lt, resolve*_inRange, read/write_in_range: the modulo in the model never hides an out-of-range index), word access at 0xFFFFF wraps to 0, reported errors arise only from undefined names / empty call stack / unsupported interrupt (exec_ok_*). Rust-level aborts (overflow, shift, index) cannot be exhibited by the model: they are decided by the L2 run of the real interpreter built with overflow checks under catch_unwind on adversarial states and near-miss lines — a PANIC is a violation.",
          "Lean 4 proof of address bounds/totality of the model + L2 differential run with panic detection (partial: Rust aborts are only observed, not proved absent)"),
+ "C08": ("Lean 4 theorems for every context/machine: a label is bound to the index of the instruction emitted next and every emission appends exactly one line (label_then_instr, code_grows_by_push: so a label before a procedure, macro use or print still denotes the next instruction; last label = the appended hlt), procedure name = first body instruction, closing brace emits ret, start index = CODE label start; one run-loop step: NEXT -> idx+1, JMP n -> n, REPEAT -> idx, HALT stops with nothing executed after (loop_*); CALL pushes cur+1 and RET pops the most recent address, nested calls return in LIFO order for any depth (nested_returns, induction). Tie: the real binary's executed-instruction trace and final state (verification hook) vs the model's run loop on generated structured programs.",
+         "Lean 4 proof over assembler-action and run-loop models + L4 trace-level differential run against the real binary"),
+ "C10": ("Lean 4 obligations over the assembler grammar REGENERATED from preprocessor.lalrpop on every run (the model interprets that data): the hand-modelled irregular actions are pinned to the source text (specials_pinned), every keyword-shaped word that can reach an emitted code line is an interpreter keyword (emitted_words_known, kernel-evaluated over the generated tables), interpreter keywords are reserved in the assembler (interp_keywords_reserved); context consistency from C14. That every template parses downstream for every operand shape is decided by the exhaustive-over-shapes correspondence (every alternative x every mnemonic spelling, generated from the current grammar, through the real assembler and executed by the real binary: any Internal Error is a violation) - stated as partial: syntax-level acceptance is tested exhaustively over shapes, not proved.",
+         "Lean 4 proof over source-generated grammar tables (rfl / decide +kernel) + shape-exhaustive L3/L4 differential run"),
+ "C11": ("Lean 4 theorems over regenerated tables: every quote_* table is closed under case with the same canonical output (tables_case_closed, pure_tables_case_closed), negative decimals and unsigned constants with the same bit pattern denote the same value (neg_bitpattern16/8), digit-string values (Horner, leading zeros, hex digit case), comment stripping preserves line breaks (strip_keeps_line_count, induction); order preservation is structural (every emission is one pushCode in source order). Tie: two independent renderings of the same grammar-derived program (case, radix, sign, OFFSET, white space) must give identical lists from the real assembler and the model.",
+         "Lean 4 proof over source-generated spelling tables + paired-rendering L3 differential run"),
+ "C12": ("Lean 4 theorems for every machine/segment/counter/definition: a definition's bytes lie contiguously in order from its start address with 1 MiB wrap and nothing else changes (writeBytes_inside/outside, induction), DB/DW value/array/string byte images incl. little-endian words and zero-extended DW strings, the loader's counter advances by exactly the bytes written and `set` resets it, along ANY definition list the assembler's counter (label offsets) equals the loader's counter (counters_agree, induction) so a label denotes its first byte (label_first_byte), segment overflow is a diagnostic never an abort or wrap (overflow_diagnosed, fix 152bfab), fresh memory is zero. Tie: emitted data lines and label offsets at L3, whole memory image via the hook at L4.",
+         "Lean 4 proof (induction over byte lists and definition lists) + L3/L4 differential run with whole-memory comparison"),
+ "C13": ("Lean 4 theorems on the model's text operations for every parameter/replacement/word: a parameter never rewrites inside a longer identifier (whole_word_only, induction over the scan), an exact word is replaced whole, placeholders contain no identifier character, the recursion guard refuses an active name and the active set is duplicate-free so nesting depth <= number of macros (depth_bounded) hence expansion terminates. Use = inline expansion for whole programs is exercised by the macros correspondence group. Partial: real stack depth/time are not modelled; open finding KF-MACRO-DEPTH (chains of ~400 levels overflow the stack).",
+         "Lean 4 proof of substitution/guard lemmas + L3 differential run on random macro libraries (partial: stack depth is a known finding)"),
+ "C14": ("Lean 4 theorems for every context: jump to a data label rejected / to an unknown name recorded and then refused by the driver's pre-flight check (undefined_label_refused), duplicate label / procedure rejected, data operand or OFFSET on a code label or unknown name rejected, call of a non-procedure rejected, every interrupt number other than 3/10h/21h rejected, missing or data-typed start refused; a refusal executes nothing. Range / size / unsupported-mnemonic errors are syntax-level: decided by the generated grammar and exercised by mutation + boundary (+-1) cases against the real binary (diagnostic printed, empty trace).",
+         "Lean 4 proof over the assembler-action and pre-flight models + mutation-based L3/L4 differential run"),
+ "C15": ("Lean 4: every step of the model's text path is a total function; proved: comment stripping is length-non-increasing, the driver's text always contains a line break so the diagnostic look-ups cannot abort (text_nonempty_lines with C16.getNewlineBefore_total; fixes 204cc69, 0cd099b), lexer progress on white space, prompt termination (C20). Aborts/hangs inside the generated LR parsers, regex and the real stack cannot be exhibited by the model: decided by fuzz runs of the real binary under a watchdog (partial). Open finding KF-MACRO-DEPTH.",
+         "Lean 4 totality of the modelled text path + watchdog-supervised fuzzing of the real binary (partial: generated parsers/stack are observed, not proved)"),
+ "C16": ("Lean 4 theorems for every newline list and position: get_newline_before returns the FIRST newline strictly after the position and all earlier ones are <= it (newline_before_spec, induction), so the reported line is the one containing the position; the look-up never aborts on the driver's text; the source mapper records the instruction's own position outside and the outermost use's position inside macro expansions; the implied RET is mapped to the closing brace. Tie: line number, column and line text of every message of the real binary vs the model on corruptions at every token position and on stepping/print/interrupt runs.",
+         "Lean 4 proof of the position arithmetic + L4 byte-exact differential run of diagnostics"),
+ "C17": ("Lean 4 theorems: the four/two hex digits printed read back to exactly the value for all 2^16 / 2^8 values (hex4_roundtrip, hex2_roundtrip), the cells of a dump are exactly the bytes of the inclusive range in address order (dumpCells_spec), backwards / out-of-space ranges are reported and print nothing (range_*), print returns text only and leaves the machine as it was (exec_print; the prompt takes the machine read-only). Tie: stdout of the real binary byte-for-byte vs the model on random states and ranges, also typed at the prompt.",
+         "Lean 4 proof of formatting/decision lemmas + L4 byte-exact differential run"),
+ "C18": ("Lean 4 theorems for every machine and stdin: AH=2 writes DL and returns it in AL, AH=1 returns the first byte of the next line (0 at end of input), AH=0Ah stores min(line length, capacity) <= capacity and changes no register or flag (ah0A_frame), all service addresses are reduced modulo 2^20, INT 10h AH=0Ah/13h output, other AH values do nothing in the services (the driver reports them). Tie: registers, memory and stdout of the real binary vs the model for all services, capacities 0/1/255, buffers at the top of memory, stdin families, all AH.",
+         "Lean 4 proof over the interrupt-service model + L4 differential run"),
+ "C19": ("Lean 4 theorems: a new machine is all zero except FLAGS=F000h, CS=FFFFh (constants regenerated from vm.rs), the undefined label reported is the one with the smallest position for EVERY permutation of the recorded set (report_order_invariant: independence from hash iteration order, fix fc61e80), the run is a function of its inputs, executing on one machine cannot affect another, the library contains no construct that could carry hidden state (regenerated hygiene scan). Tie: every L4 case run repeatedly in separate processes must be byte-identical; one Interpreter object serves thousands of interleaved valid/malformed L2 requests and must agree with the stateless model. Partial: thread schedules are not modelled.",
+         "Lean 4 proof (permutation invariance, determinism by construction) + repeated-run and shared-parser differential runs"),
+ "C20": ("Lean 4 theorems for every machine and input script: the prompt terminates (structural recursion) and consumes at most its input, end of input and q/quit terminate the emulator, n/next returns after exactly one line, any other line is answered with the same machine and the prompt comes again, the prompt cannot change the machine (prompt_*). Whole-run transparency (same output minus banners, same final state, one prompt per instruction naming its line) is compared between the real binary and the model for -i, POPF-set TF and INT 3 (fixes 29a64f6, 050fb5f).",
+         "Lean 4 proof over the prompt model + L4 differential run of stepping modes"),
 }
 
 PENDING = {}   # filled below for properties without a check yet
@@ -56,9 +80,9 @@ def main():
         "setup_cmd": "./setup.sh",
         "hooks": {
             "guard": "yjdoc2_8086_emulator_verif",
-            "enable": "none needed so far: the library API is public enough and the binary is driven as a process",
+            "enable": "RUSTFLAGS=\"--cfg yjdoc2_8086_emulator_verif\" cargo build --offline --manifest-path /repo/Cargo.toml --target-dir /verif/build/target-cli (done by setup.sh and by every check); the hook dumps trace + final state to $VERIF_TRACE_FILE",
             "baseline_off_cmd": "cd /repo && cargo test --workspace --no-fail-fast --offline",
-            "source_commits": [],
+            "source_commits": ["69a92ed"],
             "add_only": True,
         },
         "engines": [{
